@@ -94,6 +94,7 @@ def drive_sync(script, timeout_s=0.05):
     tr = []
     written = 0
     delivered = 0
+    oob_sent = False
     try:
         for a in script:
             op = a['op']
@@ -103,6 +104,7 @@ def drive_sync(script, timeout_s=0.05):
                     t.connect(timeout_s)
                     L.accept()
                     written = delivered = 0
+                    oob_sent = False
                     tr.append(dict(op='connect', ok=True))
                 elif op == 'close':
                     t.close()
@@ -120,9 +122,11 @@ def drive_sync(script, timeout_s=0.05):
                     got = peer_read(L.peer, k if isinstance(k, int) and 0 < k <= len(data) else 0)
                     tr.append(dict(op='hw', n=len(data), k=k if isinstance(k, int) else -1, prefixOk=(got == data[:len(got)] and len(got) == k)))
                 elif op == 'oob':
-                    L.peer.send(b'!', socket.MSG_OOB)      # urgent data: not part of the byte stream
-                    time.sleep(0.01)
-                    tr.append(dict(op='oob'))
+                    if not oob_sent:                       # one urgent byte per connection: TCP turns an earlier urgent byte into ordinary data when another arrives
+                        oob_sent = True
+                        L.peer.send(b'!', socket.MSG_OOB)  # urgent data: not part of the byte stream
+                        time.sleep(0.01)
+                        tr.append(dict(op='oob'))
                 elif op == 'cread':
                     pass                                    # cancelling a read is an asyncio matter
                 elif op in ('read', 'timeout'):
@@ -158,6 +162,7 @@ def drive_async(script, timeout_s=0.05):
         t = TcpTransportAsync('127.0.0.1', L.port)
         tr = []
         written = delivered = 0
+        oob_sent = False
         try:
             for a in script:
                 op = a['op']
@@ -167,6 +172,7 @@ def drive_async(script, timeout_s=0.05):
                         await t.connect(timeout_s)
                         L.accept()
                         written = delivered = 0
+                        oob_sent = False
                         tr.append(dict(op='connect', ok=True))
                     elif op == 'close':
                         await t.close()
@@ -185,9 +191,11 @@ def drive_async(script, timeout_s=0.05):
                         got = await rd
                         tr.append(dict(op='hw', n=len(data), k=k if isinstance(k, int) else -1, prefixOk=(got == data[:len(got)] and len(got) == k)))
                     elif op == 'oob':
-                        L.peer.send(b'!', socket.MSG_OOB)
-                        await asyncio.sleep(0.01)
-                        tr.append(dict(op='oob'))
+                        if not oob_sent:
+                            oob_sent = True
+                            L.peer.send(b'!', socket.MSG_OOB)
+                            await asyncio.sleep(0.01)
+                            tr.append(dict(op='oob'))
                     elif op == 'cread':
                         if written == delivered:
                             # a read that is waiting for data is abandoned (its task is cancelled): it consumes nothing, now or later
